@@ -12,7 +12,10 @@
       lib/query regenerated on this run (`Gen.parFacts`) contain no `unguarded` access outside the known
       finding F79 (cursor status readers) and form a
       consistent per-location policy; `copies_share_nothing`: the Copy methods that isolate per-worker
-      scopes share no map / slice / pointer with the original.
+      scopes share no map / slice / pointer with the original;
+    * `pooled_objects_released_at_most_once`, `scopes_released_exactly_once` — no path of lib/query gives an object
+      back to a `sync.Pool` twice (release facts, all pooled objects); `shared_headers_not_written`,
+      `header_write_sites_reviewed` — a view that takes another view's header does not write it.
 
   What is trusted (named in the evidence): the extractor's step "syntactic class ⇒ actual access
   pattern of the running program" (cross-checked dynamically with the Go race detector by
@@ -257,6 +260,75 @@ def allowedSharedCopies : List String := ["copyshare:view.go:View.Copy:FileInfo"
 theorem copies_share_nothing :
     Gen.copyFacts.all (fun c => c.fresh || allowedSharedCopies.contains c.site) = true ∧
     Gen.copyFacts.any (fun c => c.fn == "FieldIndexCache.Copy" && c.field == "m") = true := by decide
+
+/-! ## 4. Recycled objects and shared headers
+
+    Two ways in which an object that is private by intention ends up in two goroutines without any closure
+    capturing it: a pooled object that is released twice (the pool hands it out twice), and a per-record view
+    that takes its header from the outer view without copying it. -/
+
+/-- **pooled_objects_released_at_most_once.**  For every object that lib/query gives back to a `sync.Pool` — node
+    scopes (`CloseCurrentNode`), block scopes (`CloseCurrentBlock`, `Processor.Close`), merged records of the joins,
+    comparison-key buffers; the releasers are found from the source (`Gen.poolReleasers`) — no path through the
+    releasing function releases it more than once, deferred calls included.  `defer x.Close()` next to an explicit
+    `x.Close()` on an error path gives `maxRel = 2`; vt/p_c13.py reports it as `doublerelease:<file>:<function>:<object>`
+    and the race workloads (failing-statement histories + pool probe) give the failing history. -/
+theorem pooled_objects_released_at_most_once :
+    Gen.releaseFacts.all (fun f => decide (f.maxRel ≤ 1)) = true := by decide
+
+/-- Scopes that are not released on some path (left to the garbage collector — no sharing, only a lost object),
+    reviewed: `InlineTableMap.Set` returns the nested-recursion error before the release; `Calc` (lib/action) never
+    releases the node of its one expression. -/
+def allowedLeaks : List String := [
+  "releaseleak:inline_tables.go:InlineTableMap.Set:scope",
+  "releaseleak:calc.go:Calc:scope.CreateNode()"]
+
+def scopeReleasers : List String :=
+  ["ReferenceScope.CloseCurrentNode", "ReferenceScope.CloseCurrentBlock", "Processor.Close", "PutNodeScope", "PutBlockScope",
+   "PutComparisonkeysBuf", "never released (left to the garbage collector)"]
+
+/-- **scopes_released_exactly_once.**  Scopes and key buffers are released on EVERY path exactly once, except the
+    reviewed leaks (merged records are kept when the join condition holds: only `maxRel` applies to them). -/
+theorem scopes_released_exactly_once :
+    Gen.releaseFacts.all (fun f => !scopeReleasers.contains f.via || (f.minRel == 1 && f.maxRel == 1) ||
+      (f.maxRel ≤ 1 && allowedLeaks.contains f.leakSite)) = true := by decide
+
+/-- the release analysis sees the sites it is about (non-vacuity, on the generated list itself) -/
+theorem release_facts_nonvacuous :
+    Gen.poolReleasers.contains "ReferenceScope.CloseCurrentNode" = true ∧
+    Gen.poolReleasers.contains "Processor.Close" = true ∧
+    Gen.releaseFacts.any (fun f => f.via == "ReferenceScope.CloseCurrentNode" && decide (2 ≤ f.sites)) = true ∧
+    Gen.releaseFacts.any (fun f => f.via == "ReferenceScope.CloseCurrentNode" && f.defers == 1) = true ∧
+    Gen.releaseFacts.any (fun f => f.via == "sync.Pool.Put" && f.key == "mergedRecord") = true ∧
+    Gen.releaseFacts.any (fun f => f.defers == 1 && f.via == "ReferenceScope.CloseCurrentBlock") = true := by decide
+
+/-- headers that may be shared AND written (none) -/
+def allowedSharedHeaderWrites : List String := []
+
+/-- **shared_headers_not_written.**  Wherever a `View` is given the header of another view instead of a copy (the
+    one-record views of `evaluateSequentialRoutine` and of the joins' record scopes, `NewViewFromGroupedRecord`), the
+    function does not go on to call anything on that view that writes header fields (`View.Select` / `evalColumn`
+    append to `Header[i].Aliases`, `Header.Update`, …: found from the source, transitively).  `JsonObject`, which
+    does select into its per-record view, takes a copy.  Reported as `headershare:<file>:<function>:<target>`. -/
+theorem shared_headers_not_written :
+    Gen.headerShareFacts.all (fun f => f.fresh || !f.writtenAfter || allowedSharedHeaderWrites.contains f.site) = true ∧
+    Gen.headerShareFacts.any (fun f => f.fn == "JsonObject" && f.fresh) = true ∧
+    Gen.headerShareFacts.any (fun f => f.fn == "evaluateSequentialRoutine" && !f.fresh && !f.writtenAfter) = true := by decide
+
+/-- The statements of lib/query that write a field of an element of a header they did not make themselves, reviewed:
+    all of them run on the goroutine that owns the statement's view (FROM / GROUP BY / select clause of the
+    parent, DDL), or on a per-record copy (`JsonObject`, LATERAL). -/
+def reviewedHeaderWrites : List String := [
+  "headerwrite:Header.Update:h:View", "headerwrite:Header.Update:h:Column", "headerwrite:Header.Update:h:Aliases",
+  "headerwrite:joinViews:view.Header:View", "headerwrite:joinViews:view.Header:Number", "headerwrite:joinViews:view.Header:IsJoinColumn",
+  "headerwrite:RenameColumn:view.Header:Column",
+  "headerwrite:View.group:view.Header:IsGroupKey",
+  "headerwrite:View.evalColumn:view.Header:Aliases"]
+
+/-- **header_write_sites_reviewed.**  No other statement writes into a header it was handed. -/
+theorem header_write_sites_reviewed :
+    Gen.headerWriteFacts.all (fun f => f.localHeader || reviewedHeaderWrites.contains f.site) = true ∧
+    Gen.headerWriteFacts.any (fun f => f.site == "headerwrite:View.evalColumn:view.Header:Aliases") = true := by decide
 
 /-- Why the discipline is needed (a statement about the MODEL, independent of the tree): a write
     under a lock and a read of the same location without it, from two workers, is a data race. -/
